@@ -24,7 +24,7 @@ ASSUMPTIONS = [
     'say whose block counts); what is judged is that every flag is restored once all blocks have exited',
     're-assigning the identical object may raise or not; only "the held object did not change" is required',
 ]
-REQUIRED = {'pending_references_offered_to_constants': 20, 'linked_constant_failed_deliveries': 20, 'forbidden_attempts': 3000, 'blocks': 500, 'blocks_raised': 100, 'flag_probes': 2000, 'ctor_constant_reference': 50,
+REQUIRED = {'relock_failures_injected': 15, 'pending_references_offered_to_constants': 20, 'linked_constant_failed_deliveries': 20, 'forbidden_attempts': 3000, 'blocks': 500, 'blocks_raised': 100, 'flag_probes': 2000, 'ctor_constant_reference': 50,
             'ctor_constant_pending_reference': 50, 'library_attempts': 100, 'async_attempts': 100, 'observer_calls': 100, 'class_blocks': 50}
 
 _st = {}
@@ -302,10 +302,66 @@ def linked_constant_case(idx, rng, P, rep):
     rep.case(('linked-constant', tuple(sorted(kw)), watched), True)
 
 
+def relock_case(idx, rng, P, rep):
+    """Leaving edit_constant locks every constant again, also when a watcher of one Parameter's `constant` attribute
+    raises while it is told about the re-locking (or the body has raised as well)."""
+    param = _st['param']
+    names = ['a', 'b', 'c', 'd'][:rng.randint(2, 4)]
+    K = type(f'RL{idx}', (param.Parameterized,), {n: param.Parameter(default=Tok(), constant=True) for n in names})
+    q = K()
+    other = K()
+    held = {n: getattr(q, n) for n in names + ['name']}
+    failing = rng.choice(names)
+    seen = []
+
+    def boom(event):
+        seen.append(event.new)
+        if event.new is True:
+            raise RuntimeError('watcher of the constant attribute fails')
+    if rng.random() < 0.7:
+        w = q.param.watch(boom, failing, what='constant')
+    else:
+        w = q.param.watch(boom, [failing, 'name'], what='constant')
+    body_raises = rng.random() < 0.3
+    desc = dict(kind='relock', constants=names, watched=failing, body_raises=body_raises)
+    try:
+        with param.parameterized.edit_constant(q):
+            for n in rng.sample(names, rng.randint(0, len(names))):
+                setattr(q, n, Tok())
+                held[n] = getattr(q, n)
+            if body_raises:
+                raise KeyError('body fails')
+    except (RuntimeError, KeyError):
+        rep.count('blocks_raised')
+    rep.count('blocks')
+    rep.count('relock_failures_injected')
+    q.param.unwatch(w)
+    for o, label in ((q, 'the object'), (other, 'another instance')):
+        for n in names + ['name']:
+            rep.count('flag_probes')
+            rep.count('forbidden_attempts')
+            if o.param[n].constant is not True:
+                rep.violation('C14/constant-flag-left-unlocked/watcher-of-the-flag-raised', f'{label}: {n}.constant is {o.param[n].constant!r} after '
+                              f'edit_constant exited through a failing watcher of {failing}.constant', case=desc)
+            before = getattr(o, n)
+            try:
+                setattr(o, n, 'x' if n == 'name' else Tok())
+            except TypeError:
+                pass
+            else:
+                rep.violation('C14/rebind-allowed-outside-block/watcher-of-the-flag-raised', f'{label}: assignment to {n} accepted after '
+                              f'edit_constant exited through a failing watcher of {failing}.constant', case=desc)
+            if o is q and getattr(o, n) is not held[n] and getattr(o, n) is before:
+                rep.violation('C14/held-object-changed', f'{n} changed', case=desc)
+    rep.case(('relock', len(names), body_raises), True)
+
+
 def run_case(idx, rng, P, rep):
     param = _st['param']
     if rng.random() < 0.06:
         return library_case(idx, rng, P, rep)
+    if rng.random() < 0.03:
+        return relock_case(idx, rng, P, rep)
     if rng.random() < 0.05:
         return linked_constant_case(idx, rng, P, rep)
     if rng.random() < 0.05:
